@@ -220,7 +220,7 @@ class Run:
             "wall_s": round(wall, 3),
             "violations": len(self.violations),
         }
-        if write_evidence:
+        if write_evidence and not os.environ.get("VERIF_NO_EVIDENCE"):
             os.makedirs(EVID_DIR, exist_ok=True)
             tmp = os.path.join(EVID_DIR, f".{self.pid}.json.tmp")
             with open(tmp, "w", encoding="utf-8") as fh:
